@@ -41,10 +41,26 @@ def run(ctx):
         t = rng.choice([1e-3, 0.05, 0.3, 1.0, 3.0, 8.0, 20.0]) * rng.choice([1, -1])
         accuracy = rng.choice([1e-3, 1e-6, 1e-9, 1e-12, 1e-15])
         expansion = rng.choice([3, 5, 10, 20, 30, 60])
+        # structured family: the state is an eigenvector sitting at the centre of the stated spectral window, so every
+        # other Chebyshev term vanishes (isolated small terms long before convergence)
+        centre = case % 5 == 4 and len(dets) >= 2
+        centre_spec = None
+        if centre:
+            evs, evec = numpy.linalg.eigh(H)
+            kk = rng.randrange(len(evs))
+            for dt, c in zip(dets, evec[:, kk]):
+                w[dt] = complex(c)
+            psi = vec_of(w, dets)
+            rad = float(numpy.abs(evs - evs[kk]).max()) + rng.choice([0.05, 0.5])
+            centre_spec = [float(evs[kk]) - rad, float(evs[kk]) + rad]
+            algo = "chebyshev"
+            t = rng.choice([0.3, 1.0, 3.0, 8.0]) * rng.choice([1, -1])
+            accuracy = rng.choice([1e-3, 1e-6, 1e-9])
+            expansion = rng.choice([30, 60])
         H0 = H - e0 * numpy.eye(len(dets))
         x = float(numpy.linalg.norm(t * H0, 2))
         desc = {"algo": algo, "norb": norb, "route": route, "sectors": sorted(w.sectors()), "t": t, "accuracy": accuracy,
-                "expansion": expansion, "normHt": x, "e0": e0, "case": case}
+                "expansion": expansion, "normHt": x, "e0": e0, "case": case, "eigenstate_at_window_centre": bool(centre)}
         # ---- break tests on the exact terms (float arithmetic mirroring the loop) ----
         tests, borderline = [0] * (expansion + 1), False
         if algo == "taylor":
@@ -60,6 +76,8 @@ def run(ctx):
         else:
             ev = numpy.linalg.eigvalsh(H)
             spec = [float(ev.min()) - 0.05, float(ev.max()) + 0.05]
+            if centre_spec is not None:
+                spec = centre_spec
             wprime = 0.9875
             ascale = (spec[1] - spec[0]) / (2.0 * wprime)
             eshift = -(spec[0] + ascale * wprime)
@@ -86,6 +104,8 @@ def run(ctx):
             outcome = f"{type(exc).__name__}:{exc}"
         ctx.case(("series", case), sample=desc if case < 4 else None)
         ctx.count(f"{algo}:{'returned' if outcome == 'returned' else 'raised'}")
+        if centre:
+            ctx.count("chebyshev:eigenstate-at-window-centre")
         if (outcome == "returned") != (model != "raise") or outcome not in ("returned", "raise"):
             ctx.disagree(f"series:decision:{algo}", f"outcome {outcome}, model {'returns at order ' + model if model != 'raise' else 'raises'}", desc)
             continue
